@@ -6,6 +6,11 @@ Import ListNotations.
 Open Scope N_scope.
 Open Scope Z_scope.
 
+(* The thresholds transcribed in Eval.v are the implementation's. *)
+Lemma eval_consts_current : gen_WinBase = WinBase /\ gen_ForcedWin = ForcedWin /\ gen_MaxFeature = MaxFeature /\
+  gen_WinBase = ((gen_WinThreshold + gen_MaxEval) / 2)%Z.
+Proof. repeat split; reflexivity. Qed.
+
 Lemma evaluate_finished w p wg bg winner : analyze p = Some (wg, bg) -> game_over p = Some (true, winner) ->
   evaluate w p = Ok (evaluate_terminal p w wg bg winner).
 Proof. intros A G. unfold evaluate. rewrite A, G. reflexivity. Qed.
